@@ -15,6 +15,7 @@ import (
 	"github.com/antonmedv/expr/checker"
 	"github.com/antonmedv/expr/conf"
 	"github.com/antonmedv/expr/parser"
+	"github.com/antonmedv/expr/vm"
 )
 
 var kindOrder = []string{"uint", "uint8", "uint16", "uint32", "uint64", "int", "int8", "int16", "int32", "int64", "float32", "float64"}
@@ -204,6 +205,7 @@ func runC14(c *Ctx) {
 		return
 	}
 	progs := map[string]bool{}
+	typed := map[string][]*vm.Program{}
 	for i, k := range cases {
 		env := map[string]interface{}{"a": k.a, "b": k.b}
 		v, err := expr.Eval(k.src, env)
@@ -250,15 +252,24 @@ func runC14(c *Ctx) {
 					Input: map[string]string{"expr": k.src, "a": valSx(k.a).String(), "b": valSx(k.b).String()}, Expect: t.Kind().String(), Got: kindNameOf(v)})
 			}
 			r.Count("checker-kind-checked", 1)
-			// typed pipeline gives the same value
-			p, cerr2 := expr.Compile(k.src, expr.Env(env))
-			if cerr2 == nil {
-				v2, err2 := expr.Run(p, env)
-				if implOutcome(v2, err2) != impl && !(isNaNResp(impl)) {
-					r.Violate(Violation{What: "typed pipeline differs from Eval", Key: "c14:typed:" + pk, Input: k.src, Expect: impl, Got: implOutcome(v2, err2)})
-				}
+		}
+		// the typed pipeline (expr.Compile with Env: kind-directed instructions such as OpEqualInt) follows the
+		// same rule on EVERY value of the grid: one program per (op, kinds), compiled with the optimizer on and
+		// off, run on each pair of values (seed c14_5: a widened integer-equality fast path differs from the
+		// rule only where the conversion truncates)
+		for oi, tp := range c14TypedProgs(typed, pk, k.src, env) {
+			v2, err2 := expr.Run(tp, env)
+			impl2 := implOutcome(v2, err2)
+			r.Count("typed-runs", 1)
+			if impl2 != model && !(isNaNResp(impl2) && isNaNResp(model)) {
+				r.Violate(Violation{What: "typed pipeline (Compile with Env) differs from the promotion rule", Key: "c14:typed:" + pk,
+					Input:  map[string]string{"expr": k.src, "a": valSx(k.a).String(), "b": valSx(k.b).String(), "optimize": fmt.Sprint(oi == 0)},
+					Expect: model, Got: impl2})
 			}
 		}
+	}
+	if r.Counters["typed-runs"] == 0 {
+		r.Mismatch("generator", "typed-runs", "no typed program was run", "")
 	}
 	// the property's rank read literally ("by width"): the platform-sized int/uint rank by their 64-bit width.
 	// The code ranks them first in their group; every disagreement is the one listed finding.
@@ -433,3 +444,20 @@ func isSmall(v interface{}) bool {
 }
 
 func init() { props["C14"] = runC14 }
+
+// c14TypedProgs compiles src once per (operator, operand kinds) against the typed environment, with the
+// optimizer on and off; a compile error yields no program (the untyped comparison above has already run).
+func c14TypedProgs(cache map[string][]*vm.Program, pk, src string, env map[string]interface{}) []*vm.Program {
+	if ps, ok := cache[pk]; ok {
+		return ps
+	}
+	var ps []*vm.Program
+	for _, opt := range []bool{true, false} {
+		p, err := expr.Compile(src, expr.Env(env), expr.Optimize(opt))
+		if err == nil {
+			ps = append(ps, p)
+		}
+	}
+	cache[pk] = ps
+	return ps
+}
